@@ -378,4 +378,8 @@ pub fn run(t: &[&str]) -> String {
 
 fn main() {
     runner::main_loop(run);
+    // a static is never dropped: remove the scratch directory by hand
+    if let Some(d) = WD.get() {
+        let _ = std::fs::remove_dir_all(d.path());
+    }
 }
